@@ -90,6 +90,8 @@ def run(ctx):
              # single-cell datasets
              ('cf1d', dict(ny=1, nx=1, bounds=True)), ('cf2d', dict(ny=1, nx=1, bounds=True, holes='none', invalid=False)),
              ('shoc_standard', dict(nj=1, ni=1, holes='none', invalid=False)), ('ugrid', dict(w=1, h=1, invalid=False)),
+             ('shoc_standard', dict(nj=3, ni=4, holes='corner', invalid=False, plain=True)),
+             ('cf1d', dict(ny=3, nx=4, mixed_dtypes='lon_int')), ('cf1d', dict(ny=4, nx=3, bounds=True, bounds_on='lat')), ('cf1d', dict(ny=3, nx=5, bounds=True, bounds_on='lon')),
              ('shoc_simple', dict(ny=3, nx=4, bounds=False, holes='random')),
              ('shoc_standard', dict(nj=3, ni=3, holes='corner')), ('shoc_standard', dict(nj=2, ni=3, invalid=True)),
              ('shoc_standard', dict(nj=4, ni=4, holes='river', invalid=False, orphan_nodes=True)),
